@@ -17,14 +17,38 @@ type Unspec struct {
 }
 
 func (pass *Unspec) Process(schemas []*ast.Schema) ([]*ast.Schema, error) {
+	// package → original name → new name, for the objects that are renamed
+	renamed := make(map[string]map[string]string)
+
+	for _, schema := range schemas {
+		names := pass.renameSpec(schema)
+		if len(names) == 0 {
+			continue
+		}
+
+		if renamed[schema.Package] == nil {
+			renamed[schema.Package] = make(map[string]string)
+		}
+
+		for name, newName := range names {
+			renamed[schema.Package][name] = newName
+		}
+	}
+
+	if len(renamed) == 0 {
+		return schemas, nil
+	}
+
+	// references to the renamed objects have to follow, from every schema
 	for i, schema := range schemas {
-		schemas[i] = pass.processSchema(schema)
+		schemas[i] = pass.rewriteReferences(schema, renamed)
 	}
 
 	return schemas, nil
 }
 
-func (pass *Unspec) processSchema(schema *ast.Schema) *ast.Schema {
+// renameSpec renames the "spec" object of a schema and returns the names it changed.
+func (pass *Unspec) renameSpec(schema *ast.Schema) map[string]string {
 	schema.Objects = schema.Objects.Filter(func(_ string, object ast.Object) bool {
 		return !strings.EqualFold(object.Name, "metadata")
 	})
@@ -51,17 +75,16 @@ func (pass *Unspec) processSchema(schema *ast.Schema) *ast.Schema {
 		schema.AddObject(object)
 	})
 
-	if len(renamed) == 0 {
-		return schema
-	}
-
-	// references to the renamed objects have to follow
 	if newName, found := renamed[schema.EntryPoint]; found {
 		schema.EntryPoint = newName
 	}
 
+	return renamed
+}
+
+func (pass *Unspec) rewriteReferences(schema *ast.Schema, renamed map[string]map[string]string) *ast.Schema {
 	rewriteName := func(pkg string, name string) string {
-		if newName, found := renamed[name]; found && pkg == schema.Package {
+		if newName, found := renamed[pkg][name]; found {
 			return newName
 		}
 
